@@ -2,6 +2,7 @@ import ComposeVerif.Ops.Common
 import ComposeVerif.Model.Val
 import ComposeVerif.Model.Path
 import ComposeVerif.Model.MapOrder
+import ComposeVerif.Model.Validate
 import ComposeVerif.Gen.Tables
 /-! line-protocol ops for C02 (determinism): path matching, the regenerated rule tables, and the
 map→sequence decoders of `Model/MapOrder.lean`. -/
@@ -146,7 +147,16 @@ def extendsOp : Handler := fun args =>
       | some mf => Json.mkObj [("ok", Val.toJson (.map (mf.map fun kv => (kv.1, Val.map kv.2.2))))]
   | _ => Json.mkObj [("bad", "services")]
 
+/-- `validation.Validate` on a whole tree: outcome class (`Props/C02Stages.validate_stage_perm` is about this function) -/
+def validateOp : Handler := fun args =>
+  if getBool args "skip" then Json.mkObj [("skip", true)] else
+  withVal args "t" fun t =>
+    match CV.Validate.validate t with
+    | .ok => Json.mkObj [("class", "ok")]
+    | _ => Json.mkObj [("class", "fail")]
+
 def handlers : List (String × Handler) := [
+  ("c02.validate", validateOp),
   ("c02.pmatch", pmatchOp), ("c02.table", tableOp), ("c02.ruleAt", ruleAtOp), ("c02.intoSeq", intoSeqOp),
   ("c02.ssh", sshOp), ("c02.hosts", hostsOp), ("c02.mapping", mappingOp), ("c02.merge", mergeOp), ("c02.mergeSeq", mergeSeqOp),
   ("c02.newGraph", newGraphOp), ("c02.extends", extendsOp)]
